@@ -32,6 +32,8 @@ pub struct Grammar<'r> {
     pub allow_asm: bool,
     pub allow_anon: bool,
     pub allow_generics: bool,
+    /// the routine being generated declares labels `Done`, `Retry`
+    pub labels: bool,
 }
 
 const IDENTS: &[&str] = &[
@@ -46,7 +48,7 @@ const STRS: &[&str] = &["''", "'a'", "'hello world'", "'it''s'", "#13#10", "'a'#
 
 impl<'r> Grammar<'r> {
     pub fn new(rng: &'r mut Rng, budget: i32) -> Self {
-        Grammar { rng, out: vec![], budget, allow_mls: true, allow_asm: true, allow_anon: true, allow_generics: true }
+        Grammar { rng, out: vec![], budget, allow_mls: true, allow_asm: true, allow_anon: true, allow_generics: true, labels: false }
     }
     fn t(&mut self, s: &str) {
         self.out.push(GTok { text: s.to_string(), mark: Mark::None });
@@ -427,8 +429,28 @@ impl<'r> Grammar<'r> {
                 self.k("of");
                 let n = self.rng.range(1, 3);
                 for j in 0..n {
-                    let lbl = format!("{}", j);
-                    self.tm(&lbl, Mark::Start(depth + 1));
+                    // labels of varied width: numbers, enumeration names, ranges, lists
+                    match self.rng.below(6) {
+                        0 => {
+                            let lbl = self.rng.pick_str(&["eOne", "tkIdentifier", "SomeVeryLongIdentifierName", "TFoo.Value"]).to_string();
+                            let mut parts = lbl.split('.');
+                            let first = parts.next().unwrap().to_string();
+                            self.tm(&first, Mark::Start(depth + 1));
+                            for p in parts {
+                                self.t(".");
+                                self.t(p);
+                            }
+                        }
+                        1 => {
+                            self.tm("'a'", Mark::Start(depth + 1));
+                            self.t("..");
+                            self.t("'z'");
+                        }
+                        _ => {
+                            let lbl = format!("{}", j);
+                            self.tm(&lbl, Mark::Start(depth + 1));
+                        }
+                    }
                     if self.rng.chance(1, 3) {
                         self.t(",");
                         self.t("9");
@@ -554,6 +576,12 @@ impl<'r> Grammar<'r> {
     pub fn stmt_list(&mut self, depth: u16) {
         let n = if self.budget <= 0 { self.rng.below(2) } else { self.rng.range(0, 4) };
         for _ in 0..n {
+            if self.labels && self.rng.chance(1, 4) {
+                // a label is a line of its own at the statement's level
+                let l = self.rng.pick_str(&["Done", "Retry"]).to_string();
+                self.tm(&l, Mark::Start(depth));
+                self.t(":");
+            }
             self.stmt(depth);
             self.t(";");
         }
@@ -732,6 +760,15 @@ impl<'r> Grammar<'r> {
         if self.rng.chance(1, 6) {
             self.var_section(depth, "const");
         }
+        let outer_labels = self.labels;
+        self.labels = self.rng.chance(1, 3);
+        if self.labels {
+            self.km("label", Mark::Start(depth));
+            self.tm("Done", Mark::Start(depth + 1));
+            self.t(",");
+            self.t("Retry");
+            self.t(";");
+        }
         if self.allow_asm && self.rng.chance(1, 12) {
             self.km("asm", Mark::Start(depth));
             let n = self.rng.range(1, 4);
@@ -778,6 +815,7 @@ impl<'r> Grammar<'r> {
             self.stmt_list(depth + 1);
             self.km("end", Mark::Closer(depth));
         }
+        self.labels = outer_labels;
         self.t(";");
     }
 
